@@ -72,11 +72,29 @@ Apply(c, o) ==
            (* observed through the harness as the ordered list of pairs *)
            [c |-> c, r |-> <<"pairs", PairsOf(c)>>]
 
+(* ---- a key list kept by the program: the key list a program keeps is a value of its own.  Later     *)
+(* changes of the hash do not reach it, writing into it does not reach the hash.            *)
+(*   keep      ks := keys of the hash now            kept      read ks                      *)
+(*   keptset   write the symbol zz into ks[0]        keptwalk  delete every key listed in ks *)
+RECURSIVE DelAll(_, _, _)
+DelAll(c, ks, i) ==
+    IF i > Len(ks) THEN c
+    ELSE LET idx == IndexOf(c, ks[i]) IN DelAll(IF idx = 0 THEN c ELSE RemoveAt(c, idx), ks, i + 1)
+
+ApplyK(c, kept, o) ==
+    CASE o.op = "keep" -> [c |-> c, k |-> KeysOf(c), r |-> Nil]
+      [] o.op = "kept" -> [c |-> c, k |-> kept, r |-> <<"arr", kept>>]
+      [] o.op = "keptset" ->
+           IF Len(kept) = 0 THEN [c |-> c, k |-> kept, r |-> Err]
+           ELSE [c |-> c, k |-> [kept EXCEPT ![1] = <<"sym", "zz">>], r |-> Nil]
+      [] o.op = "keptwalk" -> [c |-> DelAll(c, kept, 1), k |-> kept, r |-> Nil]
+      [] OTHER -> LET a == Apply(c, o) IN [c |-> a.c, k |-> kept, r |-> a.r]
+
 (* normal form of an observed result, so that key spellings that the       *)
 (* language identifies compare equal                                       *)
 NormRes(o, r) ==
     CASE r[1] = "err" -> Err
-      [] o.op = "keys" /\ r[1] = "arr" -> <<"arr", [i \in 1..Len(r[2]) |-> NK(r[2][i])]>>
+      [] o.op \in {"keys", "keep", "kept"} /\ r[1] = "arr" -> <<"arr", [i \in 1..Len(r[2]) |-> NK(r[2][i])]>>
       [] o.op = "hpair" /\ r[1] = "list" /\ Len(r[2]) = 2 -> <<"list", <<NK(r[2][1]), r[2][2]>>>>
       [] o.op \in {"range","str","json"} /\ r[1] = "pairs" ->
             <<"pairs", [i \in 1..Len(r[2]) |-> <<NK(r[2][i][1]), r[2][i][2]>>]>>
